@@ -329,6 +329,41 @@ def evaluate(lines, compare=None):
     return cases, spec_fail, disagree
 
 
+# ------------------------------------------------------------------ source fingerprint
+
+FINGERPRINT = os.path.join(VERIF, "fingerprint.json")
+
+
+def source_fingerprint(repo=None):
+    """sha256 over the non-test Go sources of knut (path and bytes), go.mod and go.sum"""
+    repo = repo or REPO
+    h = hashlib.sha256()
+    files = []
+    for top in ("lib", "cmd"):
+        for root, _, names in os.walk(os.path.join(repo, top)):
+            for n in names:
+                if n.endswith(".go") and not n.endswith("_test.go"):
+                    files.append(os.path.join(root, n))
+    files += [os.path.join(repo, f) for f in ("main.go", "go.mod", "go.sum") if os.path.exists(os.path.join(repo, f))]
+    for f in sorted(files):
+        h.update(os.path.relpath(f, repo).encode() + b"\0")
+        with open(f, "rb") as fh:
+            h.update(fh.read())
+        h.update(b"\0")
+    return h.hexdigest()
+
+
+def source_changed():
+    """True when the sources under REPO differ from the tree the model was last validated against
+    (fingerprint.json, written by `python3 lib/vlib.py fingerprint` after the quick checks passed on it).
+    A check then triples its quick volume: a changed tree is where the correspondence has to be re-established."""
+    try:
+        base = json.load(open(FINGERPRINT))["sha256"]
+    except Exception:
+        return False
+    return source_fingerprint() != base
+
+
 # ------------------------------------------------------------------ known findings
 
 def load_known(pid):
@@ -388,3 +423,10 @@ def write_replay(pid, kind, cases, extra=None):
 
 def canon_hash(s):
     return hashlib.sha1(s.encode("utf-8", "replace")).hexdigest()[:16]
+
+
+if __name__ == "__main__" and len(sys.argv) > 1 and sys.argv[1] == "fingerprint":
+    head = subprocess.run(["git", "-C", REPO, "rev-parse", "--short", "HEAD"], stdout=subprocess.PIPE, text=True).stdout.strip()
+    write_json(FINGERPRINT, dict(repo_head=head, sha256=source_fingerprint(),
+                                 note="non-test Go sources of /repo against which the quick checks last passed"))
+    print(open(FINGERPRINT).read())
